@@ -1,3 +1,4 @@
+mod core_mp;
 mod core_pp;
 mod crash;
 mod db;
@@ -27,6 +28,11 @@ fn main() {
     match cmd.as_str() {
         "crash" => crash::run(&args, &mut sink),
         "core-pp" => core_pp::run(seed, cases, &mut sink),
+        "core-mp" => core_mp::run(seed, cases, &mut sink),
+        "core-mp-corpus" => {
+            let file = arg(&args, "--file").unwrap_or_else(|| "harness/corpus/core-mp-verify-panics.txt".into());
+            core_mp::replay(&file, &mut sink)
+        }
         "db-scenario" => {
             let name = arg(&args, "--name").unwrap_or_default();
             db::scenario(&name, &mut sink)
@@ -46,7 +52,7 @@ fn main() {
             db::run(seed, cases, &mut sink, &focus, nops, big, scale)
         }
         _ => {
-            eprintln!("usage: vharness <core-pp> --seed S --cases N --out DIR");
+            eprintln!("usage: vharness <core-pp|core-mp> --seed S --cases N --out DIR");
             std::process::exit(2);
         }
     }
